@@ -108,12 +108,12 @@ pub fn hl_sets(b: &Bounds) -> Vec<HlSet> {
     if b.corpus {
         let titles = corpus_ecommerce_titles();
         for l in LANGS {
-            let mut v = Vec::with_capacity(titles.len() * 2);
+            let mut v = long_word_titles(l);
             for (i, t) in titles.iter().enumerate() {
                 v.push(t.clone());
                 v.push(super::c15::decorate(l, t, 1 + (i as u64 % 3)));
             }
-            sets.push(HlSet { name: "e-commerce titles (plain + decorated) x derived queries".into(), l, titles: Titles::List(v), queries: Vec::new(), derived: true, block: 200 });
+            sets.push(HlSet { name: "long words 19..36 letters + e-commerce titles (plain + decorated) x derived queries".into(), l, titles: Titles::List(v), queries: Vec::new(), derived: true, block: 200 });
         }
     }
     sets
